@@ -258,14 +258,22 @@ def r3_wildcard_adders(ctx) -> None:
         if f is None:
             raise AnalysisError(f"anchor vanished: {M}.{cn}.modify")
         _r3_wildcard_table(ctx, f, cn, lead, trail)
-    # the same guard-action rule for the keyword-to-field wildcard adder
-    f = prog.func("sigma.processing.transformations.base.FieldMappingTransformationBase._add_wildcards_to_value")
-    src = [unparse(n) for n in f.node.body if isinstance(n, ast.If)]
-    want = ["if not value.startswith(SpecialChars.WILDCARD_MULTI):\n    value = SpecialChars.WILDCARD_MULTI + value", "if not value.endswith(SpecialChars.WILDCARD_MULTI):\n    value = value + SpecialChars.WILDCARD_MULTI"]
-    if src == want:
-        r.ok("C03.R3", f.qual, "keyword→field mapping adds only missing wildcards, tested on the parsed value", f.loc)
-    else:
-        r.violation("C03.R3", f.qual, " / ".join(s.split(":")[0] for s in src), "wildcards must be tested on the parsed SigmaString (startswith/endswith of WILDCARD_MULTI), not on its text: an escaped literal '*' at the edge is not a wildcard", f.loc)
+    # the same guard-action rule for the keyword-to-field wildcard adder (interpreted, shared with C12.R5)
+    from . import c12
+    before = len(r.findings)
+    text3 = r.rule_text.get("C03.R3")
+    c12.r5_keyword_wildcards(ctx)
+    if text3 is not None:
+        r.rule_text["C03.R3"] = text3
+    for o in r.obligations:
+        if o.get("rule") == "C12.R5":
+            o["rule"] = "C03.R3"
+    for fnd in r.findings[before:]:
+        if fnd.rule == "C12.R5":
+            fnd.rule = "C03.R3"
+    r.rule_counts["C03.R3"] = r.rule_counts.get("C03.R3", 0) + r.rule_counts.pop("C12.R5", 0)
+    r.rule_text.pop("C12.R5", None)
+    r.floor_failures[:] = [x.replace("C12.R5", "C03.R3") if isinstance(x, str) else x for x in r.floor_failures]
     r.floor("C03.R3", 10)
 
 
